@@ -9,6 +9,14 @@ CLAIMED = {
    note="trusts the facts extractor (total: unprojected protobuf content is reported) and the doc-derived rules FromIntent applies (DESIGN.md 4/C02)",
    technique="property-based testing: intent oracle over generated specifications (rapid)"),
 }
+CLAIMED["C05"] = dict(cat="exploration",
+   text="The harness owns the schedule: parse.Parser.Parse is given a reader.Reader whose ReadHashBranch calls are released one at a time in an order drawn by rapid (or enumerated exhaustively for small graphs), over random import digraphs with cycles, diamonds, self loops, equivalent spellings and depth limits. Each execution of the real code is held against a reference closure model (BFS distance < n, depth-first pre-order in text order, each file once). Exploration with per-graph exhaustive schedule enumeration where small.",
+   note="trusts the reference closure model and that contributions are observable through per-file calls appended to a shared endpoint; remote (//host/...) imports are not exercised",
+   technique="property-based testing with harness-owned schedules (gated reader) against a reference model; exhaustive completion-order enumeration on small graphs")
+CLAIMED["C06"] = dict(cat="fault_enumeration",
+   text="Fault injection through the same gated reader: failing files x failure kinds (reader error, bad import line, body syntax error, truncation, undetectable yaml/json, corrupt pb/textpb/pb.json) x completion orders; on graphs of <=4 files the complete (file x kind x order) matrix is enumerated. Oracle: error naming a retrieved failing file and no model; success when nothing retrieved fails; never a panic or stall.",
+   note="trusts the release log as the exact set of files retrieved; the CLI exit status is not asserted (the statement only says an error is returned)",
+   technique="fault-injection matrix driven by property-based generation (rapid) with harness-owned delivery order")
 NOT_YET = {}
 def main():
     checks = []
